@@ -13,7 +13,7 @@
   the footer with the float parameter function `geom`; the same hypothesis as in C05) and "the
   export succeeded" (64-bit range of the counters, as in C05).
 -/
-import PyProb.Properties.C05
+import PyProb.Properties.C05_bloom
 import PyProb.Properties.C09
 
 namespace PyProb.Corollaries
